@@ -104,10 +104,11 @@ type runInfo struct {
 	WDropped    []uint64 `json:"wdropped,omitempty"`
 	AppliedSeqs []int64  `json:"applied"` // writer sequence of every applied payload (-1 = not a sent payload)
 	Up          bool     `json:"up"`
-	Reasons     []string `json:"reasons,omitempty"` // connection drop reasons (log messages)
-	Inverted    bool     `json:"inverted"`          // writer emitted a non-increasing sequence on a healthy wire
-	Deviations  int      `json:"deviations"`        // schedule steps that could not be executed as planned
-	Drift       string   `json:"drift,omitempty"`   // observed outcome differs from TLC's prediction
+	Reasons     []string `json:"reasons,omitempty"`  // connection drop reasons (log messages)
+	Warnings    []string `json:"warnings,omitempty"` // receiver warnings on a connection that was kept
+	Inverted    bool     `json:"inverted"`           // writer emitted a non-increasing sequence on a healthy wire
+	Deviations  int      `json:"deviations"`         // schedule steps that could not be executed as planned
+	Drift       string   `json:"drift,omitempty"`    // observed outcome differs from TLC's prediction
 	DropsByCtr  bool     `json:"drops_by_counter,omitempty"`
 	RLast       uint64   `json:"rlast"`
 	FirstLine   int      `json:"first_line"` // 1-based line of the run's first event in the trace
@@ -300,17 +301,19 @@ func hid(p []byte) string {
 }
 
 type run struct {
-	sc       scenario
-	mu       sync.Mutex
-	pre      []event // writer-side events, in the order of the effects
-	live     []event // receiver-side events (applied / conndrop) in the order of the effects
-	captured []*frame
-	seqOfH   map[string]uint64
-	wdrops   []uint64
-	inFrame  atomic.Bool
-	tearing  atomic.Bool
-	reasons  []string
-	phase    atomic.Int32 // 0 produce/capture, 1 deliver
+	sc         scenario
+	mu         sync.Mutex
+	pre        []event // writer-side events, in the order of the effects
+	live       []event // receiver-side events (applied / conndrop) in the order of the effects
+	captured   []*frame
+	seqOfH     map[string]uint64
+	wdrops     []uint64
+	inFrame    atomic.Bool
+	tearing    atomic.Bool
+	reasons    []string
+	readerMsgs []string // warn/error records of the receiver's logger
+	notes      []string
+	phase      atomic.Int32 // 0 produce/capture, 1 deliver
 }
 
 func (r *run) addPre(e event)  { r.mu.Lock(); r.pre = append(r.pre, e); r.mu.Unlock() }
@@ -348,9 +351,10 @@ func (r *run) onLog(who string, rec map[string]interface{}) {
 	if r.tearing.Load() {
 		return
 	}
+	// informational only: whether the connection was dropped is decided from what happened on the
+	// socket (reset / write failure) and the receiver's error counter, never from a log line
 	r.mu.Lock()
-	r.reasons = append(r.reasons, msg)
-	r.live = append(r.live, event{"ev": "conndrop", "reason": msg})
+	r.readerMsgs = append(r.readerMsgs, msg)
 	r.mu.Unlock()
 }
 
@@ -515,7 +519,20 @@ func (h *harness) runScenario(sc scenario) (err error) {
 		coord.VerifHandleReplicateSync(ss, req)
 	}()
 	// reader -> writer direction: forwarded verbatim (handshake request, acks)
-	go func() { io.Copy(sp, rconn) }()
+	rdone := make(chan error, 1)
+	go func() {
+		buf := make([]byte, 4096)
+		for {
+			n, e := rconn.Read(buf)
+			if n > 0 {
+				sp.Write(buf[:n])
+			}
+			if e != nil {
+				rdone <- e // io.EOF = orderly close by the receiver; anything else = reset
+				return
+			}
+		}
+	}()
 	// writer -> reader direction: frame 0 (sync ack) forwarded, the rest captured
 	capDone := make(chan struct{})
 	go func() {
@@ -702,16 +719,28 @@ func (h *harness) runScenario(sc scenario) (err error) {
 		}
 	}
 
-	// ---- deliver, then half-close: the receiver consumes everything in order and then sees EOF
+	// ---- deliver, then half-close. Everything goes out in ONE write followed by a 2-byte trailer (the
+	// start of a frame header that never completes). A receiver that consumed the whole stream reads
+	// the trailer, then sees EOF and closes an empty socket: orderly FIN. A receiver that gave up on a
+	// frame closes with the trailer (at least) unread: the kernel answers with a reset, or our write
+	// fails. That physical difference -- plus the receiver's own total_errors counter -- is what
+	// "connection dropped" means here; log lines only supply the reason text.
+	var wire bytes.Buffer
 	for _, f := range deliver {
-		if _, e := rconn.Write(f.bytes()); e != nil {
-			break // receiver already closed its side
-		}
+		wire.Write(f.bytes())
 	}
+	wire.Write([]byte{0, 0})
+	_, werr := rconn.Write(wire.Bytes())
 	if tc, ok := rconn.(*net.TCPConn); ok {
 		tc.CloseWrite()
 	}
-	if e := waitFor("receiver consumed the stream", func() bool { return !recv.IsConnected() }); e != nil {
+	var rdErr error
+	select {
+	case rdErr = <-rdone:
+	case <-time.After(waitLimit):
+		return infra("receiver did not close the connection after end of stream\n%s", allStacks())
+	}
+	if e := waitFor("receiver left its receive loop", func() bool { return !recv.IsConnected() }); e != nil {
 		return e
 	}
 	rstats := recv.Stats()
@@ -724,15 +753,26 @@ func (h *harness) runScenario(sc scenario) (err error) {
 			dropped = true
 		}
 	}
-	for _, e := range r.live {
-		if e["ev"] == "conndrop" {
-			dropped = true
-		}
+	how := ""
+	switch {
+	case werr != nil:
+		how = "write to the reader failed: " + werr.Error()
+	case rdErr != nil && rdErr != io.EOF:
+		how = "reader closed with unread data: " + rdErr.Error()
+	case statInt64(rstats, "total_errors") > 0:
+		how = "receiver total_errors > 0"
 	}
-	if !dropped && statInt64(rstats, "total_errors") > 0 {
-		r.live = append(r.live, event{"ev": "conndrop", "reason": "receiver total_errors > 0"})
-		r.reasons = append(r.reasons, "receiver total_errors > 0")
+	if how != "" {
+		reason := how
+		if n := len(r.readerMsgs); n > 0 {
+			reason = r.readerMsgs[n-1]
+		}
+		r.live = append(r.live, event{"ev": "conndrop", "reason": reason})
+		r.reasons = append(r.reasons, reason)
 		dropped = true
+	} else if len(r.readerMsgs) > 0 {
+		// the receiver complained but kept the connection
+		r.notes = append(r.notes, r.readerMsgs...)
 	}
 	pre := r.pre
 	live := r.live
@@ -815,6 +855,10 @@ func (h *harness) runScenario(sc scenario) (err error) {
 	info.WDropped = r.wdrops
 	info.Up = !dropped
 	info.Reasons = r.reasons
+	if len(r.notes) > 3 {
+		r.notes = r.notes[:3]
+	}
+	info.Warnings = r.notes
 	// (two abstract flips of the same field may cancel at byte level, so only single-step scripts are compared)
 	if sc.Pred != nil && deviations == 0 && len(sc.Adv) <= 1 {
 		info.Drift = comparePrediction(sc.Pred, &info)
